@@ -246,6 +246,20 @@ def writers_monotone(ctx, rep, rule):
         rep.check(e.data['reg_reset'], rule, "%s registry reset before the first start" % e.where,
                   r.RUN.qualname, "entry jobs started on a path where job.%s was not reset" % reg,
                   "a job that ran in a previous run is reported done before it runs again", trace(e.st))
+    from .runrules import MEMBERS, strip_coll
+    resets = [e for e in an.events('STORE') if e.data['attr'] == reg and e.data['val'] == T.NONE
+              and e.data['nstart'] == 0]
+    for e in resets:
+        o = e.data['obj']
+        lp = [c for c in e.loops if c.elem == o]
+        conds = [k for k, v in e.st.facts.items() if T.contains(k, o) and strip_coll(k) != MEMBERS]
+        ok = o[0] == 'elem' and strip_coll(o[1]) == MEMBERS and lp and not lp[0].conds and not conds
+        rep.check(bool(ok), rule, "%s every member's registry entry is reset" % e.where, e.fr.func.qualname,
+                  "`%s` resets %s%s" % (src(stmt_of(e.node)), T.show(o, 3),
+                                       " under %s" % [T.show(c, 3) for c in conds] if conds else ""),
+                  "some members (e.g. nested schedulers) keep the finished task of a previous run: they are "
+                  "reported done before they run again, their successors start too early and they never restart",
+                  trace(e.st))
     for e in an.events('STORE'):
         if e.data['attr'] == reg and e.data['val'] == T.NONE and e.data['nstart'] > 0:
             rep.fail(rule, "%s registry cleared after a start" % e.where, r.RUN.qualname,
